@@ -426,6 +426,21 @@ func (w *W) crossCheck(h *hll.HyperLogLog, got uint64, b []byte, after int, det 
 	}
 }
 
+// cardOf calls Cardinality() where the caller has no model at hand: the value is judged on
+// the registers that GetBytes() of the same object reports right after the call, and against
+// a freshly rebuilt counter.
+func (w *W) cardOf(h *hll.HyperLogLog, det func() map[string]interface{}) uint64 {
+	got := h.Cardinality()
+	b := append([]byte(nil), h.GetBytes()...)
+	p, regs, problem := unpack(b)
+	if problem != "" {
+		return got // the byte form is judged where the model is at hand
+	}
+	w.judgeCard(got, regs, &model{p: uint(p), regs: regs}, -1, false, det)
+	w.crossCheck(h, got, b, 2, det)
+	return got
+}
+
 // judgeCard judges one value returned by Cardinality() against the registers of that moment.
 func (w *W) judgeCard(got uint64, regs []uint8, md *model, n int, hashedSet bool, det func() map[string]interface{}) (lnRatio float64, usable bool) {
 	if regs == nil {
@@ -545,7 +560,7 @@ func (w *W) checkBuild(h *hll.HyperLogLog, det func() map[string]interface{}) *h
 	if !bytes.Equal(h.GetBytes(), keep) {
 		w.c.Fail("Build:roundtrip", "building from GetBytes() changed the original counter", det())
 	}
-	c1, c2 := h.Cardinality(), h2.Cardinality()
+	c1, c2 := w.cardOf(h, det), w.cardOf(h2, det)
 	if c1 != c2 {
 		d := det()
 		d["bytes"] = vlib.Hex(keep)
@@ -717,7 +732,10 @@ func main() {
 						continue // the state of the recorded Cardinality defect; reported by the other sections
 					}
 				}
-				x := math.Log(float64(h.Cardinality()) / float64(n))
+				got := w.cardOf(h, func() map[string]interface{} {
+					return map[string]interface{}{"precision": p, "items": n, "note": "set " + fmt.Sprint(k) + " of the accuracy-median section of this shard"}
+				})
+				x := math.Log(float64(got) / float64(n))
 				xs[pclass(p)] = append(xs[pclass(p)], math.Max(x, -10))
 				c.Count("offers", int64(n))
 			}
@@ -772,7 +790,7 @@ func main() {
 				d["bytes_first"], d["bytes_second"] = vlib.Hex(ref), vlib.Hex(got)
 				c.Fail("state:order-dependent", fmt.Sprintf("p=%d n=%d: the same set offered in another order with duplicates gives different GetBytes() (variant %d)", p, n, v), d)
 			}
-			if ca, cb := a.Cardinality(), b.Cardinality(); ca != cb {
+			if ca, cb := w.cardOf(a, det), w.cardOf(b, det); ca != cb {
 				c.Fail("state:order-dependent", fmt.Sprintf("p=%d n=%d: estimates differ (%d, %d) for the same set", p, n, ca, cb), det())
 			}
 		}
